@@ -935,7 +935,6 @@ func c04RenderLoop(c *Ctx, m *runnerModel, render *Func, loop *ast.RangeStmt, su
 	c.ob("C04.R3", render.Name+suffix+"/parsed-text", w.Pos(render.Decl.Pos()), okParse, map[bool]string{true: "the markup parser receives exactly the builder's content", false: "the markup parser receives " + got + ", not the builder's content as written element by element (text could be substituted or rewritten after concatenation)"}[okParse])
 }
 
-
 // aliasOf: the identifier denotes obj, or a local assigned exactly once from (an alias of) obj.
 func aliasOf(info *types.Info, x *expander, id *ast.Ident, obj types.Object, depth int) bool {
 	o := info.Uses[id]
